@@ -18,6 +18,7 @@ RULE = (
     ' Also: models holding 2**16+1 .. 2**18+5 observations (thorough up to 2**20+3): fitted-values and export clauses after every whole step.'
     ' Also: growing models (batches of 100 .. 200000 observations between steps).'
     ' Also: production-size models with 50..95 % inert (clipped) wells, intercept clause included.'
+    ' Also: chains continued on a deepcopy / pickle copy of the model.'
 )
 ASSUMPTIONS = [
     "conjugacy is asserted for observation noise, intercept scale tau0, embedding scales tau (multiplicative gamma process) and for the global treatment scales eta0/eta1/eta2 (given the local scales the sampler holds after the block: the prior precision of V[m] is phi[m]*eta, which the Gaussian-block oracle already pins); the local scales phi* and the auxiliary variables are checked for order, bounds and finiteness only (their hyper-prior is not documented beyond the code)",
@@ -71,6 +72,9 @@ def exhaustive(tier):
         yield {"kind": "big_model", "n": n_, "D": D_, "steps": 3, "seed": n_ % 1000}
     for n_, inert_ in [(250000, 0.7), (60000, 0.95)] + ([(2**20, 0.9), (400000, 0.5)] if tier != "quick" else []):
         yield {"kind": "big_model", "n": n_, "D": 1, "steps": 2, "seed": n_ % 991, "inert": inert_}
+    # chains continued on a copy of the model
+    for how_, after_, n_ in [("deepcopy", 2, 400), ("pickle", 1, 900), ("deepcopy", 1, 5000)] + ([("pickle", 3, 20000), ("deepcopy", 4, 300)] if tier != "quick" else []):
+        yield {"kind": "big_model", "n": n_, "D": 2, "steps": after_ + 4, "seed": n_ % 977, "copy": [how_, after_]}
     # a model that keeps growing: batches of some thousand observations between steps
     for bs_, D_ in [([3000, 3000, 2500], 2), ([5000, 70000], 1), ([1000] * 9, 2)] + ([([4096, 4096, 1], 2), ([40000, 30000, 70000, 200000], 1), ([100] * 50, 1)] if tier != "quick" else []):
         yield {"kind": "big_model", "n": sum(bs_), "D": D_, "steps": len(bs_) + 2, "seed": sum(bs_) % 997, "batches": bs_}
@@ -357,6 +361,14 @@ def _check_big_model(case):
             given = cuts[step]
             if step + 1 == case["steps"] and step + 1 < len(cuts):
                 raise HarnessError("more batches than steps")
+        if case.get("copy") and step == case["copy"][1]:
+            # the chain is continued on a copy of the model (a snapshot taken with copy.deepcopy, a model handed to a worker
+            # process through pickle): the copy is a model like any other
+            import copy
+            import pickle
+
+            model = copy.deepcopy(model) if case["copy"][0] == "deepcopy" else pickle.loads(pickle.dumps(model))
+            wm = attach(model, "wrapped_model")
         with np.errstate(all="ignore"):
             model.step()
         s_ = G.State(wm)
